@@ -389,8 +389,51 @@ def serial_case(rep, drv, rng, th, no_transit=None, overstock=None):
 		bad.append('expected_cost(%s) = %r but the exact top-down evaluation of the echelon policy is %r' % (Sech, ana, ref))
 	if dev > 8 * se + trunc:
 		bad.append('long-run average cost %.6g over %d periods vs SSM expected cost %.6g%s: off by %.1f standard errors' % (avg, T - warm, ana_sim, ' (pipeline term removed: in-transit rate 0)' if no_transit else '', dev / max(se, 1e-300)))
+	bad += workflow(rep, N, hloc, Ls, p, lam, Sech, ana, seed)
 	if bad:
 		rep.diff('serial-SSM', '; '.join(bad[:3]), case, py={'avg': avg, 'se': se, 'analytical': ana}, oracle=True, theorem=THEOREM)
+
+
+def workflow(rep, N, hloc, Ls, p, lam, Sech, ana, seed):
+	"""The way a user goes from the analysis to the simulation, on ONE network object numbered upstream-first (stage j of the analysis is node
+	N + 1 - j): evaluate the echelon levels with `network=`, convert them to local levels, install them by node index, simulate. The same system
+	with the levels installed BEFORE any analytical call must give the identical trajectory, and the analytical value is the one of the
+	parameter form."""
+	from stockpyl import ssm_serial
+	from stockpyl.supply_chain_network import serial_system, echelon_to_local_base_stock_levels
+	from stockpyl.sim import simulation
+	idx = lambda j: N + 1 - j          # analysis stage j (1 = downstream) -> node index
+	def build():
+		return serial_system(N, node_order_in_system=[idx(j) for j in range(N, 0, -1)], node_order_in_lists=[idx(j) for j in range(1, N + 1)],
+			local_holding_cost=list(hloc), echelon_holding_cost=[hloc[j] - (hloc[j + 1] if j + 1 < N else 0) for j in range(N)], shipment_lead_time=list(Ls), stockout_cost=[p] + [0] * (N - 1), demand_type=['P'] + [None] * (N - 1), mean=[lam] + [None] * (N - 1),
+			policy_type='BS', base_stock_level=[0] * N)
+	out = []
+	try:
+		with warnings.catch_warnings():
+			warnings.simplefilter('ignore')
+			Se = {idx(j): Sech[j] for j in Sech}
+			want_loc = {idx(j): Sech[j] - (Sech[j - 1] if j > 1 else 0) for j in Sech}
+			net_a = build()
+			ana_a = ssm_serial.expected_cost(Se, network=net_a)
+			loc_a = echelon_to_local_base_stock_levels(net_a, Se)
+			for i, v in loc_a.items():
+				net_a.nodes_by_index[i].inventory_policy.base_stock_level = v
+			tot_a = simulation(net_a, 300, rand_seed=seed % 10 ** 6, progress_bar=False)
+			net_b = build()
+			for i, v in want_loc.items():
+				net_b.nodes_by_index[i].inventory_policy.base_stock_level = v
+			tot_b = simulation(net_b, 300, rand_seed=seed % 10 ** 6, progress_bar=False)
+		rep.count('serial:analysis-then-install-then-simulate')
+		if abs(ana_a - ana) > 1e-9 * max(1, abs(ana)):
+			out.append('expected_cost(network=upstream-first numbering) = %r, parameter form %r' % (ana_a, ana))
+		if dict(loc_a) != want_loc:
+			out.append('after expected_cost(network=net), echelon_to_local_base_stock_levels(net, %s) = %s; successive differences along the line are %s' % (Se, dict(loc_a), want_loc))
+		if tot_a != tot_b:
+			out.append('levels installed AFTER the analytical call on the same network give total cost %r over 300 periods, installed on a fresh copy of the system %r (same seed)' % (tot_a, tot_b))
+	except Exception as e:
+		import traceback
+		out.append('analysis-then-simulate workflow raised %s: %s' % (err_enum(e), traceback.format_exc()[-200:]))
+	return out
 
 
 def run(rep, drv):
